@@ -219,6 +219,13 @@ impl Block for AuDecode {
                 self.state = DecodeState::WaitingHeader(data_offset as usize);
             }
             DecodeState::WaitingHeader(data_offset) => {
+                // Magic and data offset already read (8 bytes). The fixed part
+                // of the header is another 16.
+                if data_offset < 24 {
+                    return Err(Error::msg(format!(
+                        ".au data offset {data_offset} is smaller than the header"
+                    )));
+                }
                 let header_rest_len = data_offset - 8;
                 if i.len() < header_rest_len {
                     return Ok(BlockRet::WaitForStream(&self.src, header_rest_len));
@@ -240,6 +247,8 @@ impl Block for AuDecode {
                         "AU block only supports one channel currently, got {channels}"
                     )));
                 }
+                // The rest of the header (and annotation) is not audio data.
+                i.consume(header_rest_len);
                 self.state = DecodeState::Data;
             }
             DecodeState::Data => {
